@@ -44,7 +44,13 @@ class Driver(object):
             'grid of (channel_max, frame_max) offers (49); refusal by '
             'Connection.Close(code) / socket drop / silence at each of the 3 '
             'handshake steps; random Unicode credentials, vhost, heartbeat. '
-            'Non-trivial = refused, unsupported offer, or >= 2 tokens.')
+            'Non-trivial = refused, unsupported offer, or >= 2 tokens. '
+            'Second family (ch0seq): arbitrary frame sequences - conforming or not - '
+            'fed straight to Channel0.on_frame and to ch0_run: every ordered pair of '
+            'Tune offers of a 3x4 boundary grid (144), refusals followed by a broker '
+            'that carries on, repeated Start, and random sequences of up to 8 frames '
+            'over all 9 frame kinds; compared on state, frames written, recorded '
+            'error codes, blocked flag and negotiated limits.')
     EXHAUSTIVE = {'quick': True, 'thorough': True}
     ASSUMPTIONS = ['mechanism list is whitespace separated text',
                    'credentials are NUL-free text']
@@ -168,6 +174,128 @@ class Driver(object):
         m['elapsed'] = round(elapsed, 2)
         return dict(cin=cin, cobs=cobs, meta=m)
 
+    # ---- arbitrary frame sequences straight into Channel0.on_frame ----
+    SPECS = {'ch0seq': dict(
+        header='From AV Require Import Lib.Base Model.Handshake.\nLocal Open Scope Z_scope.',
+        tin='ch0_in', tobs='ch0_obs', eqb='ch0_obs_eqb', model='ch0_model',
+        prop='ch0_prop_ok', nontriv='ch0_nontrivial')}
+
+    def make_seq_case(self, m):
+        """m['frames']: list of tuples ('start', mechs) ('tune', cmax, fmax, hb) ('openok',)
+        ('close', code) ('closeok',) ('blocked',) ('unblocked',) ('heartbeat',) ('other',)"""
+        from pamqp import specification as sp
+        from pamqp.heartbeat import Heartbeat
+        from amqpstorm.base import Stateful
+        from amqpstorm.channel0 import Channel0
+        from amqpstorm.exception import AMQPConnectionError
+
+        class Conn(Stateful):
+            def __init__(self, params):
+                super(Conn, self).__init__()
+                self.parameters = params
+                self.frames_out = []
+                self.set_state(Stateful.OPENING)
+
+            def write_frame(self, channel_id, frame_out):
+                self.frames_out.append((channel_id, frame_out))
+
+        conn = Conn(dict(username=m['user'], password=m['pw'], virtual_host=m['vhost'],
+                         heartbeat=m['cfg_hb'], hostname='h', port=5672, timeout=10))
+        ch0 = Channel0(conn)
+        cin_frames = []
+        for f in m['frames']:
+            f = tuple(f)
+            k = f[0]
+            if k == 'start':
+                fr = sp.Connection.Start(mechanisms=f[1])
+                cin_frames.append('(IStart %s)' % coq_bytes(f[1]))
+            elif k == 'tune':
+                fr = sp.Connection.Tune(channel_max=f[1], frame_max=f[2], heartbeat=f[3])
+                cin_frames.append('(ITune %s %s %s)' % (coq_Z(f[1]), coq_Z(f[2]), coq_Z(f[3])))
+            elif k == 'openok':
+                fr = sp.Connection.OpenOk()
+                cin_frames.append('IOpenOk')
+            elif k == 'close':
+                fr = sp.Connection.Close(reply_code=f[1], reply_text='refused')
+                cin_frames.append('(IClose %s)' % coq_Z(f[1]))
+            elif k == 'closeok':
+                fr = sp.Connection.CloseOk()
+                cin_frames.append('ICloseOk')
+            elif k == 'blocked':
+                fr = sp.Connection.Blocked(reason='low memory')
+                cin_frames.append('IBlocked')
+            elif k == 'unblocked':
+                fr = sp.Connection.Unblocked()
+                cin_frames.append('IUnblocked')
+            elif k == 'heartbeat':
+                fr = Heartbeat()
+                cin_frames.append('IHeartbeat')
+            else:
+                fr = sp.Connection.Secure()
+                cin_frames.append('IOther')
+            ch0.on_frame(fr)
+        outs = []
+        for chan, fr in conn.frames_out:
+            if chan != 0:
+                outs.append('(OOpen %s)' % coq_bytes('frame on channel %d' % chan))
+            elif fr.name == 'Connection.StartOk':
+                outs.append('(OStartOk %s %s)' % (coq_bytes(fr.mechanism), coq_bytes(fr.response)))
+            elif fr.name == 'Connection.TuneOk':
+                outs.append('(OTuneOk %s %s %s)' % (coq_Z(fr.channel_max), coq_Z(fr.frame_max),
+                                                    coq_Z(fr.heartbeat)))
+            elif fr.name == 'Connection.Open':
+                outs.append('(OOpen %s)' % coq_bytes(fr.virtual_host))
+            else:
+                outs.append('(OOpen %s)' % coq_bytes('unexpected ' + fr.name))
+        errs = []
+        for e in conn.exceptions:
+            code = getattr(e, 'error_code', None) if isinstance(e, AMQPConnectionError) else -1
+            errs.append('None' if code is None else '(Some %s)' % coq_Z(code))
+        state = {Stateful.CLOSED: 'S_CLOSED', Stateful.CLOSING: 'S_CLOSING',
+                 Stateful.OPENING: 'S_OPENING', Stateful.OPEN: 'S_OPEN'}[conn.current_state]
+        cin = ('{| zi_cfg := {| c_user := %s; c_pass := %s; c_vhost := %s; c_heartbeat := %s |}; '
+               'zi_frames := %s |}' % (coq_bytes(m['user']), coq_bytes(m['pw']),
+                                       coq_bytes(m['vhost']), coq_Z(m['cfg_hb']),
+                                       coq_list(cin_frames)))
+        cobs = ('{| zo_state := %s; zo_out := %s; zo_errs := %s; zo_blocked := %s; '
+                'zo_cmax := %s; zo_fmax := %s |}' % (
+                    state, coq_list(outs), coq_list(errs), coq_bool(ch0.is_blocked),
+                    coq_Z(ch0.max_allowed_channels), coq_Z(ch0.max_frame_size)))
+        return dict(spec='ch0seq', cin=cin, cobs=cobs, meta=dict(m, kind='ch0seq'))
+
+    def seq_metas(self, tier, rnd):
+        def rframe():
+            k = rnd.choice(['start', 'tune', 'tune', 'openok', 'close', 'closeok', 'blocked',
+                            'unblocked', 'heartbeat', 'other'])
+            if k == 'start':
+                return (k, ' '.join(rnd.choices(TOKENS, k=rnd.randrange(0, 4))))
+            if k == 'tune':
+                return (k, rnd.choice(CMAX), rnd.choice(FMAX), rnd.choice([0, 30, 60]))
+            if k == 'close':
+                return (k, rnd.choice([200, 320, 403, 530, 541]))
+            return (k,)
+        metas = []
+        conforming = [('start', 'PLAIN AMQPLAIN'), ('tune', 2047, 131072, 60), ('openok',)]
+        metas.append(conforming)
+        # every pair of Tune offers of the boundary grid one after the other (a value kept
+        # from the first negotiation must not leak into the second)
+        grid = [(c, f) for c in (0, 7, 65535) for f in (0, 4096, 131072, 131073)]
+        for a in grid:
+            for b in grid:
+                metas.append([('start', 'PLAIN'), ('tune', a[0], a[1], 60), ('tune', b[0], b[1], 30),
+                              ('openok',)])
+        # a refusal followed by a broker that carries on; Start twice with different offers
+        for code in (200, 320, 403):
+            metas.append([('close', code)] + conforming)
+            metas.append(conforming[:2] + [('close', code), ('openok',), ('close', 530)])
+        metas.append([('start', 'AMQPLAIN'), ('start', 'EXTERNAL PLAIN'), ('start', 'PLAIN')])
+        for _ in range(120 if tier == 'quick' else 1500):
+            metas.append([rframe() for _ in range(rnd.randrange(0, 9))])
+        creds = ['guest', 'p@ss:w/rd', '雪', 'a b', ' lead']
+        return [dict(frames=fs, user=rnd.choice(creds), pw=rnd.choice(creds),
+                     vhost=rnd.choice(['/', 'vh', 'a/b', 'é']), cfg_hb=rnd.choice([0, 5, 60, 580]))
+                for fs in metas]
+
     def base(self, **kw):
         d = dict(mechs='PLAIN AMQPLAIN', cmax=2047, fmax=131072, hb=60,
                  user='guest', pw='guest', vhost='/', cfg_hb=60, refusal=None)
@@ -222,10 +350,14 @@ class Driver(object):
                 hb=rnd.choice([0, 30, 60]), cfg_hb=rnd.choice([0, 5, 60, 580]),
                 user=rnd.choice(creds), pw=rnd.choice(creds),
                 vhost=rnd.choice(['/', 'vh', 'a/b', 'é', '%2F', ''])))
-        return [self.make_case(m) for m in metas]
+        return ([self.make_case(m) for m in metas]
+                + [self.make_seq_case(m) for m in self.seq_metas(tier, rnd)])
 
     def replay_cases(self, doc):
         m = doc['case']
+        if m.get('kind') == 'ch0seq':
+            m.pop('kind')
+            return [self.make_seq_case(m)]
         if m.get('refusal'):
             m['refusal'] = tuple(m['refusal'])
         m.pop('elapsed', None)
@@ -238,6 +370,11 @@ class Driver(object):
         st = {'refusal': {}, 'ntokens': {}}
         for c in cases:
             m = c['meta']
+            if m.get('kind') == 'ch0seq':
+                st.setdefault('ch0seq_len', {})
+                n = len(m['frames'])
+                st['ch0seq_len'][n] = st['ch0seq_len'].get(n, 0) + 1
+                continue
             k = m['refusal'][0] + '@%d' % m['refusal'][1] if m['refusal'] else 'none'
             st['refusal'][k] = st['refusal'].get(k, 0) + 1
             nt = len(m['mechs'].split())
